@@ -11,6 +11,12 @@ package persist
 // cbor.Marshal / cbor.Unmarshal are outside the verifier's reach. Serialize
 // changes nothing; Deserialize may rewrite the attached state and cache (and
 // whatever they own) but never the engine, the VM, the renderer or the resource.
+// a well-formed session: what the engine needs before it builds its VM on a state and a cache
+//@ pred sessionWf(st, ca) = st != nil && state.flagsOk(st) && count(flagcount) == int(st.BitSize)
+//@   && (st.input == nil || !sameBacking(st.input, st.Flags)) && !sameBacking(st.Code, st.Flags)
+//@   && allocated(st) && allocated(st.Flags) && len(st.ExecPath) <= state.MaxLevel
+//@   && ca != nil && cache.shape(ca) && cache.unique(ca) && cache.sized(ca)
+//@   && len(ca.Cache) == len(st.ExecPath) + 1 && int(ca.CacheSize) < 2147483648
 //@ func (*Persister).Serialize
 //@   assumed
 //@   requires p != nil
@@ -21,8 +27,11 @@ package persist
 //@   requires p != nil
 //@   modifies everything except f:engine., f:vm., f:render., f:resource., f:persist.Persister.db, f:persist.Persister.ctx, f:persist.Persister.flush, count(stfault)
 //@   ensures count(stfault) == old(count(stfault)) + ite(result != nil, 1, 0)
-// a record that decodes was written by Save, which never writes a snapshot without state or cache
-//@   ensures result == nil ==> p.State != nil && p.Memory != nil
+// a record that decodes was written by Save: it holds a state and a cache that form a
+// well-formed session, and cbor decodes into the attached objects when there are any
+//@   ensures result == nil ==> p.State != nil && p.Memory != nil && sessionWf(p.State, p.Memory)
+//@   ensures old(p.State) != nil ==> p.State == old(p.State)
+//@   ensures old(p.Memory) != nil ==> p.Memory == old(p.Memory)
 
 // Save serialises the attached state and cache - both must be attached (the
 // engine attaches them during its first-time setup, ensurePersist) - and
@@ -56,3 +65,9 @@ package persist
 //@   ensures[C07,C12] @once count(dbgets) == old(count(dbgets)) + 1
 //@   ensures[C12] @reports count(stfault) > old(count(stfault)) ==> result != nil
 //@   ensures[C07] @nowrite count(dbputs) == old(count(dbputs))
+// ... and Load fails only when the read or the decoding failed
+//@   ensures[C07,C12] @faulted result != nil ==> count(stfault) > old(count(stfault))
+//@   ensures[C07,C12] @onefault count(stfault) <= old(count(stfault)) + 1
+// what was loaded is a well-formed session, decoded into the attached objects
+//@   ensures @loaded result == nil ==> p.State != nil && p.Memory != nil && sessionWf(p.State, p.Memory)
+//@   ensures @attached (old(p.State) != nil ==> p.State == old(p.State)) && (old(p.Memory) != nil ==> p.Memory == old(p.Memory))
